@@ -66,9 +66,13 @@ impl Ssh {
         let task = tokio::spawn(async move {
             let mut in_buf = BytesMut::new();
             let message_break = Finder::new(MARKER);
+            // The send handle is owned by the session, the receive handle is shared with the reply
+            // futures of outstanding requests: those may outlive the session, and they still have
+            // to get their replies. The task ends when both sides are gone.
+            let mut sender_gone = false;
             loop {
                 tokio::select! {
-                    to_send = out_queue_rx.recv() => {
+                    to_send = out_queue_rx.recv(), if !sender_gone => {
                         tracing::debug!("attempting to send message");
                         tracing::trace!(?to_send);
                         // TODO:
@@ -76,9 +80,14 @@ impl Ssh {
                         if let Some(data) = to_send {
                             channel.data(data.as_ref()).await?;
                         } else {
-                            break;
+                            sender_gone = true;
+                            continue;
                         };
                         tracing::trace!("message sent");
+                    }
+                    () = in_queue_tx.closed(), if sender_gone => {
+                        tracing::debug!("nobody is left to receive, hanging up");
+                        break;
                     }
                     msg = channel.wait() => {
                         if let Some(msg) = msg {
